@@ -655,3 +655,254 @@ REGISTRY = [
 ]
 
 REG_BY_NAME = {e.name: e for e in REGISTRY}
+
+
+# --------------------------------------------------------------------------- scheduler project
+YOMHOOK = """module yomhook
+  implicit none
+  integer, parameter :: jphook = selected_real_kind(13, 300)
+  logical :: lhook = .false.
+contains
+  subroutine dr_hook(cdname, kswitch, pkey)
+    character(len=*), intent(in) :: cdname
+    integer, intent(in) :: kswitch
+    real(kind=jphook), intent(inout) :: pkey
+    if (kswitch < 0) pkey = 0.0_jphook
+  end subroutine dr_hook
+end module yomhook
+"""
+
+
+def add_drhook(wc):
+    """DR_HOOK instrumentation of kern (for DrHookTransformation); returns new kmod text"""
+    lines = wc.kmod.split('\n')
+    i_sub = next(i for i, l in enumerate(lines) if l.lower().startswith('  subroutine kern('))
+    i_decl = next(i for i, l in enumerate(lines) if l.strip().lower() == 'integer :: jz, kz' and i > i_sub)
+    i_end = next(i for i, l in enumerate(lines) if i > i_decl and (l.rstrip().lower() == '  contains' or
+                                                                   l.strip().lower() == 'end subroutine kern'))
+    # first executable line: after the declarations block inserted by decorate()
+    j = i_decl + 1
+    while re.match(r'^\s*(real|integer|logical|type)\b.*::', lines[j], re.I) or re.match(r'^\s*sfn\(sfx\)', lines[j], re.I):
+        j += 1
+    new = lines[:i_sub + 1] + ['    use yomhook, only: lhook, dr_hook, jphook'] + lines[i_sub + 1:j] + \
+        ['    real(kind=jphook) :: zhook_handle', "    if (lhook) call dr_hook('KERN', 0, zhook_handle)"]
+    # statement functions must stay last in the specification part
+    k = len(new) - 2
+    if re.match(r'^\s*sfn\(sfx\)', new[k - 1], re.I):
+        new[k - 1], new[k] = new[k], new[k - 1]
+    new += lines[j:i_end] + ["    if (lhook) call dr_hook('KERN', 1, zhook_handle)"] + lines[i_end:]
+    return '\n'.join(new)
+
+
+def make_project(wc, rng, with_free=True, block_loop=False):
+    """
+    files of a small scheduler project around the decorated program:
+    kinds_mod.F90, yomhook.F90, [fsub.F90 + include/fsub.intfb.h], kmod.F90, drvmod.F90
+    returns dict(files=[(name, text)], headers=[(name, text)], info)
+    """
+    text = wc.kmod
+    lines = text.split('\n')
+    i_sub = next(i for i, l in enumerate(lines) if l.lower().startswith('  subroutine kern('))
+    i_decl = next(i for i, l in enumerate(lines) if l.strip().lower() == 'integer :: i, j, k' and i > i_sub)
+    m = re.match(r'\s*subroutine\s+kern\s*\((.*)\)', lines[i_sub], re.I)
+    args = [a.strip() for a in m.group(1).split(',')]
+    decls = [l for l in lines[i_sub + 1:i_decl] if re.search(r'intent\s*\(', l, re.I)]
+    rk = wc.rk
+    has_t1 = wc.marks.get('has_t1')
+    drv = ['module drvmod']
+    if wc.kinds:
+        drv.append('  use kinds_mod, only: jprb')
+    drv.append('  use kmod, only: kern' + (', ttype' if has_t1 else ''))
+    drv.append('  implicit none')
+    drv.append('contains')
+    drv.append(f"  subroutine drv({', '.join(args)})")
+    drv += decls
+    if block_loop:
+        drv.append('    integer :: ib, nb')
+    if with_free:
+        drv.append('#include "fsub.intfb.h"')
+    if block_loop:
+        drv += ['    nb = 2', '    do ib = 1, nb', f"      call kern({', '.join(args)})", '    end do']
+    else:
+        drv.append(f"    call kern({', '.join(args)})")
+    if with_free:
+        drv.append('    call fsub(n, a1, s2)')
+    drv += ['  end subroutine drv', 'end module drvmod', '']
+    files, headers = [], []
+    if wc.kinds:
+        files.append(('kinds_mod.F90', wc.kinds))
+    files.append(('yomhook.F90', YOMHOOK))
+    if with_free:
+        imp = '  use kinds_mod, only: jprb\n' if wc.kinds else ''
+        sig = (f'subroutine fsub(n, x, s)\n{imp}  implicit none\n  integer, intent(in) :: n\n'
+               f'  real(kind={rk}), intent(in) :: x(n)\n  real(kind={rk}), intent(inout) :: s\n')
+        files.append(('fsub.F90', sig + '  s = s + x(1)\nend subroutine fsub\n'))
+        headers.append(('fsub.intfb.h', 'interface\n' + sig + 'end subroutine fsub\nend interface\n'))
+    files.append(('kmod.F90', text))
+    files.append(('drvmod.F90', '\n'.join(drv)))
+    return {'files': files, 'headers': headers, 'args': args}
+
+
+def topo_order(texts):
+    """order (name, text) pairs so that modules are compiled before their users"""
+    defs, uses = {}, {}
+    for name, t in texts:
+        lo = t.lower()
+        for mname in re.findall(r'^\s*module\s+(?!procedure\b)(\w+)\s*$', lo, re.M):
+            defs[mname] = name
+        uses[name] = set(re.findall(r'^\s*use\s*(?:,\s*\w+\s*)?(?:::)?\s*(\w+)', lo, re.M))
+    order, done = [], set()
+    by = dict(texts)
+
+    def visit(n, stack=()):
+        if n in done or n in stack:
+            return
+        for u in sorted(uses.get(n, ())):
+            f = defs.get(u)
+            if f and f != n:
+                visit(f, stack + (n,))
+        done.add(n)
+        order.append((n, by[n]))
+    for name, _ in texts:
+        visit(name)
+    return order
+
+
+@dataclass
+class SEntry:
+    name: str
+    make: object                       # callable(opts, env) -> list of transformations (applied in order)
+    space: dict = field(default_factory=dict)
+    pre: object = None                 # callable(wc, opts) -> bool
+    gate: object = None
+    group: str = 'scheduler'
+    project: dict = field(default_factory=dict)    # make_project keyword arguments
+    min_quick: int = 2
+
+
+def _s_idem(o, env):
+    from loki.transformations.idempotence import IdemTransformation   # pylint: disable=import-outside-toplevel
+    return [IdemTransformation()]
+
+
+def _s_drhook(o, env):
+    return [_T().DrHookTransformation(suffix=o['suffix'], remove=o['remove'], kernel_only=o['kernel_only'])]
+
+
+def _s_dependency(o, env):
+    T = _T()
+    out = []
+    if o['wrap']:
+        out.append(T.ModuleWrapTransformation(module_suffix='_MOD'))
+    out.append(T.DependencyTransformation(suffix='_T', module_suffix='_MOD' if o['wrap'] or o['modsuffix'] else None,
+                                          include_path=env['include']))
+    return out
+
+
+def _s_duplicate(o, env):
+    T = _T()
+    return [T.DuplicateKernel(duplicate_kernels=('kern',), duplicate_suffix='dupl',
+                              duplicate_module_suffix='dm' if o['modsuffix'] else None)]
+
+
+def _s_remove_kernel(o, env):
+    return [_T().RemoveKernel(remove_kernels=('hsub',))]
+
+
+def _s_derived(o, env):
+    return [_T().DerivedTypeArgumentsTransformation(all_derived_types=o['all'])]
+
+
+def _s_argshape(o, env):
+    T = _T()
+    return [T.ArgumentArrayShapeAnalysis(), T.ExplicitArgumentArrayShapeTransformation()]
+
+
+def _s_dupargs(o, env):
+    return [_T().RemoveDuplicateArgs(recurse_to_kernels=o['recurse'], rename_common=o['rename_common'])]
+
+
+def _s_hoist(o, env):
+    T = _T()
+    if o['kind'] == 'all':
+        return [T.HoistVariablesAnalysis(), T.HoistVariablesTransformation(as_kwarguments=o['kw'], remap_dimensions=o['remap'])]
+    return [T.HoistTemporaryArraysAnalysis(dim_vars=('n',) if o['kind'] == 'arrays_n' else None),
+            T.HoistTemporaryArraysTransformationAllocatable(as_kwarguments=o['kw'], remap_dimensions=o['remap'])]
+
+
+def _s_pool(o, env):
+    from loki import Dimension   # pylint: disable=import-outside-toplevel
+    T = _T()
+    block = Dimension(name='block', index='ib', size='nb')
+    return [T.TemporariesPoolAllocatorTransformation(block_dim=block, check_bounds=o['check_bounds'])]
+
+
+def _s_inline(o, env):
+    return [_T().InlineTransformation(inline_constants=False, inline_elementals=o['elementals'], inline_internals=o['internals'],
+                                      inline_marked=o['marked'], remove_dead_code=False)]
+
+
+def _s_extract(o, env):
+    return [_T().ExtractTransformation(extract_internals=o['internals'], outline_regions=o['outline'])]
+
+
+def _s_removecode(o, env):
+    return [_T().RemoveCodeTransformation(remove_marked_regions=True, remove_dead_code=o['dead'], use_simplify=False,
+                                          remove_unused_args=o['unused_args'], remove_unused_vars=o['unused_vars'],
+                                          kernel_only=o['kernel_only'])]
+
+
+def _s_sanitise(o, env):
+    T = _T()
+    return [T.SanitiseTransformation(resolve_associate_mappings=True, resolve_sequence_association=o['seq'])]
+
+
+def _s_loops(o, env):
+    return [_T().TransformLoopsTransformation(loop_interchange=True, loop_fusion=True, loop_fission=True, loop_unroll=True)]
+
+
+def _s_lowerconst(o, env):
+    return [_T().LowerConstantArrayIndices(recurse_to_kernels=True, inline_external_only=o['ext'])]
+
+
+def _s_parametrise(o, env):
+    return [_T().ParametriseTransformation(dic2p={'m': 3}, replace_by_value=o['by_value'])]
+
+
+def _s_combo(o, env):
+    T = _T()
+    out = [T.SanitiseTransformation(resolve_associate_mappings=True, resolve_sequence_association=True),
+           T.InlineTransformation(inline_constants=False, inline_elementals=True, inline_internals=o['internals'],
+                                  inline_marked=True, remove_dead_code=False)]
+    if o['derived']:
+        out.append(T.DerivedTypeArgumentsTransformation())
+    out.append(T.HoistTemporaryArraysAnalysis())
+    out.append(T.HoistTemporaryArraysTransformationAllocatable())
+    out.append(T.ModuleWrapTransformation(module_suffix='_MOD'))
+    out.append(T.DependencyTransformation(suffix='_T', module_suffix='_MOD', include_path=env['include']))
+    return out
+
+
+SCHED_REGISTRY = [
+    SEntry('sched:IdemTransformation', _s_idem),
+    SEntry('sched:DrHookTransformation', _s_drhook, {'suffix': [None, 'X'], 'remove': B, 'kernel_only': B},
+           pre=lambda wc, o: o['suffix'] or o['remove'], project={'drhook': True}),
+    SEntry('sched:DependencyTransformation', _s_dependency, {'wrap': B, 'modsuffix': B}),
+    SEntry('sched:DuplicateKernel', _s_duplicate, {'modsuffix': B}),
+    SEntry('sched:RemoveKernel', _s_remove_kernel, pre=lambda wc, o: wc.marks['has']['hsub']),
+    SEntry('sched:DerivedTypeArgumentsTransformation', _s_derived, {'all': B}, pre=lambda wc, o: wc.marks.get('has_t1')),
+    SEntry('sched:ArgumentArrayShape', _s_argshape, pre=_has('assumed_shape')),
+    SEntry('sched:RemoveDuplicateArgs', _s_dupargs, {'recurse': B, 'rename_common': B}, pre=_has('dup_args')),
+    SEntry('sched:HoistVariables', _s_hoist, {'kind': ['all', 'arrays', 'arrays_n'], 'kw': B, 'remap': B}),
+    SEntry('sched:TemporariesPoolAllocator', _s_pool, {'check_bounds': B}, project={'block_loop': True}),
+    SEntry('sched:InlineTransformation', _s_inline, {'elementals': B, 'internals': B, 'marked': B}),
+    SEntry('sched:ExtractTransformation', _s_extract, {'internals': B, 'outline': B},
+           pre=lambda wc, o: o['internals'] or o['outline']),
+    SEntry('sched:RemoveCodeTransformation', _s_removecode,
+           {'dead': B, 'unused_args': B, 'unused_vars': B, 'kernel_only': B}),
+    SEntry('sched:SanitiseTransformation', _s_sanitise, {'seq': B}),
+    SEntry('sched:TransformLoopsTransformation', _s_loops),
+    SEntry('sched:LowerConstantArrayIndices', _s_lowerconst, {'ext': B}),
+    SEntry('sched:ParametriseTransformation', _s_parametrise, {'by_value': B}),
+    SEntry('sched:pipeline', _s_combo, {'internals': B, 'derived': B}),
+]
